@@ -11,8 +11,9 @@ import (
 // LibModel is an assumed contract of an external (library) function, written
 // as an encoder. Every model used in a run is listed in the evidence.
 type LibModel struct {
-	Doc   string
-	Event bool
+	Doc     string
+	Event   bool
+	ModKeys []string // ghost/heap keys the function writes
 	Fn    func(e *FuncEnc, in ssa.Instruction, argVals []ssa.Value, args []string, rts []types.Type, res ssa.Value) bool
 }
 
@@ -131,7 +132,7 @@ func init() {
 	}}
 	L["net/http.CanonicalHeaderKey"] = pureUF("canonical MIME header key: a deterministic function of its argument")
 	for _, n := range []string{"strings.ReplaceAll", "strings.Contains", "strings.ToLower", "strings.ToUpper", "strings.Title", "strings.Join", "strings.TrimSpace", "strings.Repeat", "strings.Count", "strings.EqualFold", "strings.LastIndex", "strings.ContainsRune", "strings.IndexByte", "strings.Trim", "strings.TrimLeft", "strings.TrimRight", "strings.Fields",
-		"path.Join", "path.Dir", "path.Base", "path.Ext", "path/filepath.Join", "path/filepath.Base", "path/filepath.Ext", "path/filepath.Dir",
+		"path.Dir", "path.Base", "path.Ext", "path/filepath.Join", "path/filepath.Base", "path/filepath.Ext", "path/filepath.Dir",
 		"unicode.IsLetter", "unicode.IsUpper", "unicode.IsDigit", "unicode.IsLower", "unicode.ToUpper", "unicode.ToLower",
 		"strconv.Itoa", "strconv.Quote", "strconv.FormatInt", "strconv.FormatFloat", "strconv.FormatBool", "strconv.FormatUint",
 		"net/url.PathEscape", "net/url.QueryEscape",
@@ -140,6 +141,18 @@ func init() {
 	} {
 		L[n] = pureUF("deterministic function of its arguments, no effects")
 	}
+	L["path.Join"] = LibModel{Doc: "deterministic in its elements; injective in a plain last element", Fn: func(e *FuncEnc, in ssa.Instruction, av []ssa.Value, a []string, rts []types.Type, res ssa.Value) bool {
+		e.D.needSeq()
+		sl := av[0].Type().Underlying().(*types.Slice)
+		seq := e.seqOf(a[0], sl.Elem(), e.cur)
+		f := e.D.UF("lib_"+mangle("path.Join")+"_r0", []string{"GSeq"}, "Str")
+		e.D.UF("path_base", []string{"Str"}, "Str")
+		_, unbox := e.D.Box(types.Typ[types.String])
+		e.D.Axiom("path.Join/base", fmt.Sprintf("(forall ((a Int) (b Int)) (! (= (path_base (%s (seq_cons (seq_cons seq_nil a) b))) (%s b)) :pattern ((%s (seq_cons (seq_cons seq_nil a) b)))))", f, unbox, f))
+		e.Assumed["path.Join(dir, name) determines name for plain file names (injective in its last element)"] = true
+		e.setVal(res, "Str", sx(f, seq))
+		return true
+	}}
 	parse := func(doc string) LibModel {
 		return LibModel{Doc: doc, Fn: func(e *FuncEnc, in ssa.Instruction, av []ssa.Value, a []string, rts []types.Type, res ssa.Value) bool {
 			name := mangle(in.(ssa.CallInstruction).Common().StaticCallee().String())
@@ -164,18 +177,14 @@ func init() {
 
 func pureUF(doc string) LibModel {
 	return LibModel{Doc: doc, Fn: func(e *FuncEnc, in ssa.Instruction, av []ssa.Value, a []string, rts []types.Type, res ssa.Value) bool {
-		// variadic / slice arguments depend on heap content: not pure in our model
-		for _, v := range av {
-			if _, ok := v.Type().Underlying().(*types.Slice); ok {
-				rs := e.freshResults("lib", rts)
-				e.setResult(res, rs)
-				return true
-			}
-		}
+		// slice arguments are abstracted to their content sequence
 		name := mangle(in.(ssa.CallInstruction).Common().StaticCallee().String())
 		var sorts []string
-		for _, v := range av {
-			sorts = append(sorts, e.D.SortOf(v.Type()))
+		a = append([]string{}, a...)
+		for i, v := range av {
+			av2, as := e.abstractArg(a[i], v.Type(), e.cur)
+			a[i] = av2
+			sorts = append(sorts, as)
 		}
 		var rs []string
 		for i, t := range rts {
